@@ -30,6 +30,11 @@ const (
 // filter applies the documented exemptions: finalized-height marker; state diffs below the finality reached; events
 // pruned by the retention rule of the applied block; temp blocks (checked separately).
 func filter(d []node.KV, finalizedReached uint32, eventsPrunedUpTo int64) map[string]string {
+	return filterT(d, finalizedReached, eventsPrunedUpTo, false)
+}
+
+// filterT with keepTemp compares the parked temp blocks as well (used where no step of the case may touch them).
+func filterT(d []node.KV, finalizedReached uint32, eventsPrunedUpTo int64, keepTemp bool) map[string]string {
 	out := map[string]string{}
 	for _, kv := range d {
 		if len(kv.K) == 0 {
@@ -41,7 +46,9 @@ func filter(d []node.KV, finalizedReached uint32, eventsPrunedUpTo int64) map[st
 				continue
 			}
 		case pfxTemp:
-			continue
+			if !keepTemp {
+				continue
+			}
 		case pfxDiff:
 			if len(kv.K) == 5 && binary.BigEndian.Uint32(kv.K[1:]) < finalizedReached {
 				continue
@@ -206,7 +213,10 @@ func runCase(t *rapid.T) {
 	n.TakeEvents()
 	k := rapid.IntRange(1, 4).Draw(t, "k")
 	saveTemp := rapid.Bool().Draw(t, "saveTemp")
-	mode := rapid.SampledFrom([]string{"apply-delete", "apply-delete", "sibling", "restore"}).Draw(t, "mode")
+	mode := rapid.SampledFrom([]string{"apply-delete", "apply-delete", "sibling", "restore", "sync-detour"}).Draw(t, "mode")
+	if mode == "sync-detour" {
+		saveTemp = true
+	}
 	caseFlags := map[string]bool{}
 	type frame struct {
 		dump []node.KV
@@ -307,6 +317,66 @@ func runCase(t *rapid.T) {
 			t.Fatalf("temp blocks left after restore: %d\nhistory:\n%s", len(temps), strings.Join(hist, "\n"))
 		}
 		caseFlags["restore"] = true
+	case "sync-detour":
+		// the failed-fast-sync path: own blocks are parked as temp blocks, 1-2 foreign blocks are applied on the common
+		// block and removed again (without parking them), then the own blocks are restored. Applying and removing the foreign
+		// blocks must leave everything as it was, the parked blocks included.
+		type fr2 struct {
+			dump []node.KV
+			look string
+		}
+		var st []fr2
+		var foreign []*blockchain.Block
+		nf := rapid.IntRange(1, 2).Draw(t, "foreign")
+		for i := 0; i < nf; i++ {
+			st = append(st, fr2{n.Dump(), snapshotLookups(n)})
+			sp := n.DrawSpec(t, opts, caseFlags)
+			b, err := n.Apply(sp)
+			if err != nil {
+				t.Fatalf("foreign block rejected: %v\nhistory:\n%s", err, strings.Join(hist, "\n"))
+			}
+			foreign = append(foreign, b)
+			hist = append(hist, "APPLY foreign "+describe(b, sp))
+		}
+		f2 := n.Finalized()
+		if f2 >= foreign[0].Header.Height {
+			evid.R.Case(strings.Join(hist, "|")+"|foreign-finalized", false, nil, "history", "mode-sync-detour", "foreign-finalized")
+			return
+		}
+		top := n.Tip().Header.Height
+		for i := nf - 1; i >= 0; i-- {
+			tip := n.Tip()
+			if err := n.Exec.VerifDeleteBlock(tip, false); err != nil {
+				t.Fatalf("delete of foreign block %d failed: %v\nhistory:\n%s", tip.Header.Height, err, strings.Join(hist, "\n"))
+			}
+			hist = append(hist, fmt.Sprintf("DELETE foreign h=%d saveTemp=false", tip.Header.Height))
+			pr := eventsPruned(cfg.KeepEvents, top, f2)
+			before, after := filterT(st[i].dump, f2, pr, true), filterT(n.Dump(), f2, pr, true)
+			if d := diffDumps(before, after); d != "" {
+				t.Fatalf("state (parked temp blocks included) after apply+delete of a foreign block differs from the state before:\n%s\nhistory:\n%s", d, strings.Join(hist, "\n"))
+			}
+			if l := snapshotLookups(n); l != st[i].look {
+				t.Fatalf("lookups differ after delete of a foreign block:\nbefore: %s\nafter:  %s\nhistory:\n%s", st[i].look, l, strings.Join(hist, "\n"))
+			}
+		}
+		temps, err := n.Chain.DataAccess().GetTempBlocks()
+		if err != nil || len(temps) != deletable {
+			t.Fatalf("parked blocks after the detour: got %d (%v) want %d\nhistory:\n%s", len(temps), err, deletable, strings.Join(hist, "\n"))
+		}
+		// restoreBlocks: the parked blocks go back in ascending height
+		sort.Slice(temps, func(i, j int) bool { return temps[i].Header.Height < temps[j].Header.Height })
+		for _, b := range temps {
+			if err := n.Exec.VerifProcessValidated(b, false, true); err != nil {
+				t.Fatalf("restore of parked block h=%d failed: %v\nhistory:\n%s", b.Header.Height, err, strings.Join(hist, "\n"))
+			}
+		}
+		if !bytes.Equal(n.Tip().Header.ID, applied[k-1].Header.ID) {
+			t.Fatalf("tip after restore differs from the original tip\nhistory:\n%s", strings.Join(hist, "\n"))
+		}
+		if temps, _ := n.Chain.DataAccess().GetTempBlocks(); len(temps) != 0 {
+			t.Fatalf("temp blocks left after restore: %d\nhistory:\n%s", len(temps), strings.Join(hist, "\n"))
+		}
+		caseFlags["detour"] = true
 	case "sibling":
 		// apply a sibling A' of the first removed block; a twin that never saw A must end in the same state
 		sp := n.DrawSpec(t, opts, caseFlags)
